@@ -104,6 +104,12 @@ def run_case(case) -> Result:
         i = st8["count"]
         st8["count"] += 1
         st8["rids"].append(pdu["rid"])
+        if case.get("reboot_at") is not None and i == case["reboot_at"] and not st8.get("rebooted"):
+            # the agent restarts after answering this request: the next one is answered with an authenticated
+            # notInTimeWindow report, the client discovers the engine again and repeats its request
+            st8["rebooted"] = True
+            agent.reboot()
+            classes.add("agent_reboots")
         kind = pert["kind"]
         if kind in ("none", "disco_msgid") or i != k:
             return None
@@ -353,6 +359,8 @@ def cases(draw):
                 inc=draw(INCS), bulk=draw(st.sampled_from([1, 2, 3, 10])))
     if kind == "none" and draw(st.integers(0, 3)) == 0:
         case["twice"] = True
+    elif kind == "none" and proto["v"] == "3" and proto.get("algo") and draw(st.integers(0, 2)) == 0:
+        case["reboot_at"] = draw(st.integers(0, 2))
     if op in ("walk", "multiwalk") and draw(st.booleans()):
         # lenient walks tolerate a faulty AGENT; a response that is not the answer to the request is something else
         case["errors"] = "warn"
